@@ -5,7 +5,7 @@ for p in props:
     rp=f'/verif/registry/{p["id"]}.json'
     if os.path.exists(rp):
         r=json.load(open(rp))
-        if r.get('ready'):
+        if r.get('ready') and p['id'] in open('/verif/registry/_ready.txt').read().split():
             claimed[p['id']]=r
 fixes=subprocess.run(['git','-C','/repo','log','--format=%h','5580934..HEAD'],capture_output=True,text=True).stdout.split()
 m={"version":1,"setup_cmd":"./setup.sh",
